@@ -200,6 +200,32 @@ def run_named(case, algo, kw, fidx):
     return {"cost": costs[0] if len(costs) == 1 else (None if not costs else costs), "sols": sols}
 
 
+def run_same_object_twice(case, algo):
+    """'Running the computation again' on the SAME input object (run_algo builds a fresh, equal input for every
+    call, so state kept on or keyed by the input object - caches, consumed iterators, in-place normalisation -
+    never shows there).  Returns the canonical results of the first and of the second call."""
+    import contextlib
+    import io
+
+    from superrec2.utils.dynamic_programming import RetentionPolicy
+
+    from ..sr import PLAIN, algorithms, build_input, canon_solution, enc_cost
+
+    inp = build_input(case, force_plain=(algo in PLAIN))
+    outs = []
+    for _ in range(2):
+        try:
+            with contextlib.redirect_stderr(io.StringIO()):
+                rs = list(algorithms()[algo](inp, RetentionPolicy.ALL))
+            costs = sorted({enc_cost(o.cost()) for o in rs}, key=str)
+            sols = sorted((canon_solution(o) for o in rs), key=solution_key)
+        except Exception as e:  # noqa
+            outs.append({"err": type(e).__name__})
+            continue
+        outs.append({"cost": costs[0] if len(costs) == 1 else (None if not costs else costs), "sols": sols})
+    return outs
+
+
 def scaled(case, k):
     v = copy.deepcopy(case)
     c = solvers.full_costs(case)
@@ -278,6 +304,12 @@ def check_case(ctx, res, case, model_out):
             return
         # repetition in the same process
         if not same(solvers.strip(run_algo(case, algo, "all")), None, "the computation is run again"):
+            return
+        # repetition on the same input object (both calls must give the base result)
+        first, second = run_same_object_twice(case, algo)
+        if not same(first, None, "the computation is run on a second, equal input object"):
+            return
+        if not same(second, None, "the computation is run again on the same input object"):
             return
         # outgroup
         v, _, what = variant_outgroup(case, rng)
@@ -383,7 +415,10 @@ def fresh_process(ctx, res, cases):
         results.append(p.stdout.splitlines())
     for (c, a), l1, l2 in zip(items, *results):
         res.case({"case": c, "algo": a, "fresh": True}, solvers.nontrivial(c))
-        if l1 != l2:
+        # third witness: this process (its own hash seed, and everything the earlier cases left behind)
+        r = solvers.strip(run_algo(c, a, "all"))
+        here = json.dumps([r.get("cost"), keys(r.get("sols", [])), r.get("err")])
+        if l1 != l2 or l1 != here:
             res.violation(f"{a}: results differ between processes with different hash seeds",
                           {"case": c, "algo": a, "variant": "PYTHONHASHSEED"})
 
